@@ -416,6 +416,18 @@ func TestVerifGroupLog(t *testing.T) {
 	scripts := vfLoadScripts(t)
 	tr := vfOpenTrace(t)
 	defer tr.Close()
+	// go-ipfs-log initialises its CBOR atlas lazily without synchronisation: open one store serially
+	// before the workers start, otherwise concurrent first uses race ("missing an atlas entry")
+	{
+		w0 := vfNewRWorld(t)
+		r0 := w0.AddDevice("warm", "")
+		gc0 := r0.OpenGroup(r0.AccountGroup())
+		if _, err := gc0.MetadataStore().ContactRequestEnable(context.Background()); err != nil {
+			vfInfra("warm-up write: %v", err)
+		}
+		gc0.Close()
+		r0.db.Close()
+	}
 	var wg sync.WaitGroup
 	ch := make(chan vfScript, 16)
 	for k := 0; k < vfEnvInt("VERIF_WORKERS", 8); k++ {
